@@ -129,6 +129,8 @@ def r1_progress(ctx):
         [("50.00", 200, ()), ("Shutdown", 300, ()), ("60.00", 250, ())],
         [(None, 300, ((D, b"x"),)), ("50.00", 200, ())],
         [("50.00", 200, ()), ("70.00", 200, ())],
+        # the same value reported twice, then an older report arriving late: the second report is the newest even though it changed nothing
+        [("50.00", 100, ()), ("50.00", 300, ()), ("49.00", 200, ())],
     ]
     table = []
     try:
@@ -247,6 +249,23 @@ def r2_results(ctx):
         else:
             ctx.violation("C18.R2", fi.qual, L, "result-only report handled", f"a result-only report ends {[(p.exit[0], vkey(p.exit[1])[:50]) for p, _ in steps2]}")
             okk = False
+        # results are not progress: a result report overtaken by a newer (or equally stamped) progress report of its job still uploads its datasets
+        for ts_res in (100, 200):
+            w3 = w0
+            hist_ok = True
+            for prog, ts, res in (("50.00", 200, ()), (None, ts_res, ((D2, b"late"),))):
+                st3 = _report(repo, w3, j1, prog, ts, res)
+                if len(st3) != 1 or st3[0][0].exit[0] != "return":
+                    hist_ok = False
+                    break
+                w3 = st3[0][1]
+            got = _fetch(repo, w3, j1, D2) if hist_ok else ("stuck", None)
+            ctx.evals(1)
+            if got != ("return", b"late"):
+                ctx.violation("C18.R2", fi.qual, L, "result report overtaken by a progress report",
+                              f"job j1: progress report @200, then a result-only report stamped @{ts_res} (sent earlier, delivered later) uploading D2: get_result(j1, D2) gives "
+                              f"{got[0]} {vkey(got[1])[:50]}; the dataset was uploaded and must be returned — staleness applies to the progress shown, not to results")
+                okk = False
         if okk:
             ctx.ok("C18.R2", L, "results: returned as uploaded, per job and per dataset (colliding printed forms kept apart), unknown -> error")
     except _Stuck as e:
